@@ -146,8 +146,14 @@ ConfiguredMocks(cfg, p) ==
                ELSE {}
         : L \in DeclNow(cfg, p) }
 
+\* Subs[p] holds every Go package below p in the directory tree, also those below a nested configured package.
+\* A package that is not configured itself is configured as its NEAREST configured recursive ancestor that discovers it.
+Candidates(cfg, s) == {p \in Configured : s \in Subs[p] /\ Discovered(cfg, p, s)}
+NearestOf(cfg, s) == CHOOSE p \in Candidates(cfg, s) : \A q \in Candidates(cfg, s) : q = p \/ p \in Subs[q]
+DiscoveredBy(cfg, p, s) == Candidates(cfg, s) # {} /\ NearestOf(cfg, s) = p
+
 DiscoveredMocks(cfg, p) ==
-  UNION { IF Discovered(cfg, p, s)
+  UNION { IF DiscoveredBy(cfg, p, s)
           THEN {[pkg |-> s, letter |-> L, from |-> p, how |-> "subpkg"] : L \in {x \in DeclNow(cfg, s) : Selected(cfg, p, x, FALSE)}}
           ELSE {}
         : s \in Subs[p] \ Configured }
